@@ -2,8 +2,9 @@
    the effect trace of every call (same format as harness/vdrv_http.c).
    argv[1] = sandbox root; cfg's directory is root ++ suffix.  The [fs] oracle of the model is
    instantiated with the real sandbox directory tree (read-only).
-   For every request the trace of the unchanged-tree variant is printed; when the variant with
-   the two proposed fixes behaves differently its trace follows, every line prefixed "alt ". *)
+   For every request the trace of the tree variant is printed; when the regression variant (the
+   flow before the fix commits 057fee4 / 6ca4ce7) behaves differently its trace follows, every line
+   prefixed "alt ". *)
 open Model
 open Vutil
 
@@ -92,10 +93,16 @@ let () =
     | "req" :: segs ->
       let sl = List.map (fun s -> if s = "EOF" then Eof else if s = "ERR" then Rerr else Data (hb s)) segs in
       let t1 = trace (http_process_n fs_real v_tree !cfg sl) in
-      let t2 = trace (http_process_n fs_real v_fixed !cfg sl) in
+      let t2 = trace (http_process_n fs_real v_prefix !cfg sl) in
       print_endline "req";
       List.iter print_endline t1;
       if t1 <> t2 then List.iter (fun l -> print_endline ("alt " ^ l)) t2
+    | ["lreq"; _; h] ->
+      (* the same request over a real listener: one segment, then EAGAIN; the number of reads is not compared *)
+      let strip t = List.filter (fun l -> String.length l < 6 || String.sub l 0 6 <> "reads ") t in
+      let t1 = strip (trace (http_process_n fs_real v_tree !cfg [Data (hb h)])) in
+      print_endline "lreq";
+      List.iter print_endline t1
     | "poison" :: _ -> print_endline "poison"
     | ["atoi"; h] -> Printf.printf "atoi %d\n" (int_of_z (atoi (hb h)))
     | _ -> Printf.printf "?? %s\n" line)
